@@ -123,20 +123,16 @@ Proof.
 Qed.
 
 (* ---------- governance scan: exact characterisation ---------- *)
-Lemma walk_until_ok : forall t cb q,
-  walk_until t cb q = Ok tt <-> (forall te pid, In (te, pid) q -> te <= t -> cb pid = Ok tt).
+Lemma walk_all_ok : forall cb q,
+  walk_all cb q = Ok tt <-> (forall te pid, In (te, pid) q -> cb pid = Ok tt).
 Proof.
-  intros t cb q. induction q as [|[te pid] r [IH1 IH2]]; cbn.
+  intros cb q. induction q as [|[te pid] r [IH1 IH2]]; cbn.
   - split; [intros _ ? ? [] | reflexivity].
-  - destruct (te <=? t) eqn:E.
-    + apply Z.leb_le in E. split.
-      * intros H. apply bind_ok in H. destruct H as [[] [H1 H2]]. pose proof (IH1 H2) as H3.
-        intros te' pid' [X|X] L; [inversion X; subst; exact H1 | eapply H3; eauto].
-      * intros H. rewrite (H te pid (or_introl eq_refl) E). cbn. apply IH2.
-        intros te' pid' X L. apply (H te' pid'); [right; exact X | exact L].
-    + apply Z.leb_gt in E. split.
-      * intros H0. pose proof (IH1 H0) as H. intros te' pid' [X|X] L; [inversion X; subst; lia | eapply H; eauto].
-      * intros H. apply IH2. intros te' pid' X L. apply (H te' pid'); [right; exact X | exact L].
+  - split.
+    + intros H. apply bind_ok in H. destruct H as [[] [H1 H2]]. pose proof (IH1 H2) as H3.
+      intros te' pid' [X|X]; [inversion X; subst; exact H1 | eapply H3; eauto].
+    + intros H. rewrite (H te pid (or_introl eq_refl)). cbn. apply IH2.
+      intros te' pid' X. apply (H te' pid'). right. exact X.
 Qed.
 
 Lemma dep_cb_ok : forall g from to pid,
@@ -172,25 +168,25 @@ Proof.
     rewrite D. cbn. rewrite Y5, Y6. reflexivity.
 Qed.
 
-(* the scan passes exactly when no QUEUED proposal whose end time is ALREADY REACHED involves the pair *)
+(* the scan passes exactly when no QUEUED proposal involves the pair *)
 Lemma gov_validate_exact : forall from to s,
   queued_exist s ->
   (gov_validate from to s = Ok tt <-> ~ seen_inactive s from to /\ ~ seen_active s from to).
 Proof.
   intros from to s [Q1 Q2]. unfold gov_validate. split.
   - intros H. apply bind_ok in H. destruct H as [[] [H1 H2]].
-    rewrite walk_until_ok in H1, H2. split.
-    + intros (te & pid & p & I & L & G & B). specialize (H1 te pid I L). apply dep_cb_ok in H1.
+    rewrite walk_all_ok in H1, H2. split.
+    + intros (te & pid & p & I & G & B). specialize (H1 te pid I). apply dep_cb_ok in H1.
       destruct H1 as [p' [X Y]]. rewrite G in X. inversion X. subst. congruence.
-    + intros (te & pid & p & I & L & G & B). specialize (H2 te pid I L). apply vote_cb_ok in H2.
+    + intros (te & pid & p & I & G & B). specialize (H2 te pid I). apply vote_cb_ok in H2.
       destruct H2 as [p' [X Y]]. rewrite G in X. inversion X. subst. congruence.
   - intros [N1 N2].
-    assert (W1 : walk_until (now s) (dep_cb (gov s) from to) (inactiveq (gov s)) = Ok tt).
-    { apply walk_until_ok. intros te pid I L. apply dep_cb_ok.
+    assert (W1 : walk_all (dep_cb (gov s) from to) (inactiveq (gov s)) = Ok tt).
+    { apply walk_all_ok. intros te pid I. apply dep_cb_ok.
       destruct (sget Z.eqb pid (props (gov s))) as [p|] eqn:G; [|exfalso; eapply Q1; eauto].
       exists p. split; [reflexivity|]. match goal with |- ?b = false => destruct b eqn:B; [|reflexivity] end.
       exfalso. apply N1. exists te, pid, p. tauto. }
-    rewrite W1. cbn. apply walk_until_ok. intros te pid I L. apply vote_cb_ok.
+    rewrite W1. cbn. apply walk_all_ok. intros te pid I. apply vote_cb_ok.
     destruct (sget Z.eqb pid (props (gov s))) as [p|] eqn:G; [|exfalso; eapply Q2; eauto].
     exists p. split; [reflexivity|]. match goal with |- ?b = false => destruct b eqn:B; [|reflexivity] end.
     exfalso. apply N2. exists te, pid, p. tauto.
@@ -200,21 +196,53 @@ Lemma gov_validate_refuses : forall from to s,
   seen_inactive s from to \/ seen_active s from to -> gov_validate from to s <> Ok tt.
 Proof.
   intros from to s H V. unfold gov_validate in V. apply bind_ok in V. destruct V as [[] [H1 H2]].
-  rewrite walk_until_ok in H1, H2. destruct H as [H|H]; destruct H as (te & pid & p & I & L & G & B).
-  - specialize (H1 te pid I L). apply dep_cb_ok in H1. destruct H1 as [p' [X Y]]. rewrite G in X. inversion X. subst. congruence.
-  - specialize (H2 te pid I L). apply vote_cb_ok in H2. destruct H2 as [p' [X Y]]. rewrite G in X. inversion X. subst. congruence.
+  rewrite walk_all_ok in H1, H2. destruct H as [H|H]; destruct H as (te & pid & p & I & G & B).
+  - specialize (H1 te pid I). apply dep_cb_ok in H1. destruct H1 as [p' [X Y]]. rewrite G in X. inversion X. subst. congruence.
+  - specialize (H2 te pid I). apply vote_cb_ok in H2. destruct H2 as [p' [X Y]]. rewrite G in X. inversion X. subst. congruence.
 Qed.
 
-(* a queue in which every end time lies in the future hides everything from the scan *)
-Lemma gov_validate_blind : forall from to s,
-  (forall te pid, In (te, pid) (inactiveq (gov s)) -> now s < te) ->
-  (forall te pid, In (te, pid) (activeq (gov s)) -> now s < te) ->
-  gov_validate from to s = Ok tt.
+(* with the gov store shape (govwfb): involvement in ANY open proposal is seen *)
+Lemma govwf_unpack : forall s, govwfb s = true ->
+  (forall pid p, In (pid, p) (props (gov s)) -> p_status p = PDeposit -> In (p_dep_end p, pid) (inactiveq (gov s))) /\
+  (forall pid p, In (pid, p) (props (gov s)) -> p_status p = PVoting -> In (p_vote_end p, pid) (activeq (gov s))) /\
+  (forall pid a, has_vote (gov s) pid a = true -> exists p, sget Z.eqb pid (props (gov s)) = Some p /\ p_status p = PVoting) /\
+  queued_exist s.
 Proof.
-  intros from to s H1 H2. unfold gov_validate.
-  assert (W1 : walk_until (now s) (dep_cb (gov s) from to) (inactiveq (gov s)) = Ok tt).
-  { apply walk_until_ok. intros te pid I L. specialize (H1 te pid I). lia. }
-  rewrite W1. cbn. apply walk_until_ok. intros te pid I L. specialize (H2 te pid I). lia.
+  intros s H. unfold govwfb in H. repeat rewrite andb_true_iff in H. destruct H as [[[H1 H2] H3] H4].
+  rewrite forallb_forall in H1, H2, H3, H4. repeat split.
+  - intros pid p I St. specialize (H1 _ I). cbn in H1. rewrite St in H1. apply existsb_exists in H1.
+    destruct H1 as [[te q] [X E]]. cbn in E. apply andb_true_iff in E. destruct E as [E1 E2].
+    apply Z.eqb_eq in E1, E2. subst. exact X.
+  - intros pid p I St. specialize (H1 _ I). cbn in H1. rewrite St in H1. apply existsb_exists in H1.
+    destruct H1 as [[te q] [X E]]. cbn in E. apply andb_true_iff in E. destruct E as [E1 E2].
+    apply Z.eqb_eq in E1, E2. subst. exact X.
+  - intros pid a Hv. unfold has_vote in Hv. apply (shas_true_iff k2_eqb k2_eqb_ok) in Hv.
+    apply in_map_iff in Hv. destruct Hv as [[k u] [E I]]. cbn in E. subst k. specialize (H2 _ I). cbn in H2.
+    destruct (sget Z.eqb pid (props (gov s))) as [p|]; [|discriminate]. exists p. split; [reflexivity|].
+    destruct (p_status p); [discriminate | reflexivity | discriminate].
+  - intros te pid I N. specialize (H3 _ I). cbn in H3. unfold shas in H3. destruct (sget Z.eqb pid (props (gov s))); [congruence | discriminate].
+  - intros te pid I N. specialize (H4 _ I). cbn in H4. unfold shas in H4. destruct (sget Z.eqb pid (props (gov s))); [congruence | discriminate].
+Qed.
+
+Lemma involved_open_seen : forall s from to,
+  govwfb s = true -> involved_open s from \/ involved_open s to ->
+  seen_inactive s from to \/ seen_active s from to.
+Proof.
+  intros s from to G H. destruct (govwf_unpack s G) as (Gd & Gv & Gvote & _).
+  assert (K : forall a, involved_open s a -> (a = from \/ a = to) -> seen_inactive s from to \/ seen_active s from to).
+  { intros a (pid & p & S & O & Inv) Ha. pose proof (sget_in Z.eqb Zeqb_ok _ _ _ S) as I.
+    unfold involved in Inv. unfold is_open in O. destruct (p_status p) eqn:St; [| |discriminate].
+    - (* deposit period: no votes exist *)
+      left. exists (p_dep_end p), pid, p. split; [apply Gd; assumption|]. split; [exact S|].
+      assert (Nv : has_vote (gov s) pid a = false).
+      { destruct (has_vote (gov s) pid a) eqn:Hv; [|reflexivity]. destruct (Gvote pid a Hv) as [p' [S' St']].
+        rewrite S in S'. inversion S'. subst. congruence. }
+      rewrite Nv, orb_false_r in Inv. apply orb_true_iff in Inv.
+      destruct Ha as [->| ->]; destruct Inv as [X|X]; rewrite X; repeat rewrite ?orb_true_r, ?orb_true_l; reflexivity.
+    - right. exists (p_vote_end p), pid, p. split; [apply Gv; assumption|]. split; [exact S|].
+      repeat rewrite orb_true_iff in Inv.
+      destruct Ha as [->| ->]; destruct Inv as [[X|X]|X]; rewrite X; repeat rewrite ?orb_true_r, ?orb_true_l; reflexivity. }
+  destruct H as [H|H]; [apply (K from H); left | apply (K to H); right]; reflexivity.
 Qed.
 
 (* ---------- the migration record is written and never removed ---------- *)
